@@ -559,6 +559,12 @@ func genStream(r *hx.Rng, tier string, w io.Writer, adversarial bool) {
 			fmt.Fprintf(w, "p2pboot %s\n", blobArgs(fg[name]))
 		}
 		fmt.Fprintf(w, "p2pboot %s\n", blobArgs(nil))
+		// ... and of the P2P data store
+		dvb := c.p2pDataVariants(r)
+		for _, name := range hx.SortedKeys(dvb) {
+			fmt.Fprintf(w, "p2pbootdat blob=%s\n", hx.Hex(dvb[name]))
+		}
+		fmt.Fprintf(w, "p2pbootdat blob=%s\n", hx.Hex(c.pdat[c.ih]))
 		// P2P data items through the library entry
 		libd := func(trusted, b []byte) {
 			t := "-"
